@@ -37,6 +37,10 @@ LEVEL_NOTE = ("Trusted: Coq kernel, extraction (ExtrOcamlBasic), the Go harnesse
               "(e.g. selectNewLeader panics on an empty response map, reachable only when removed nodes alone form the majority).")
 TRUSTED = ["modelled not verified: gRPC transport, Pebble flush (exercised through crash images of the data directory), rename(2)/fsync(2)",
            "response order into newTermQuorum's channel is forced through pprof goroutine labels (falls back to 8 ms spacing if labels disappear)",
+           "swapf cases carry no model trace (model line '*'): the model has the transitions (ACoordSwap, ACoordElectionFailed from every failing "
+           "step; Example swap_election_fails_after_become_leader) and c05_restart_never_reuses covers the election that follows; the cases are "
+           "decided by monitors: become-leader-term-not-increasing, two-leaders-same-term, term-reused-by-a-later-election, "
+           "term-issued-before-durable, shard-term-regressed",
            "sfault cases: the process boundary is the crash model (a coordinator that panics/exits during a store outage is a crash event); "
            "they carry no model trace (model line '*'), only the monitors term-issued-before-durable / term-reused-after-restart / "
            "two-leaders-same-term / shard-term-regressed on the RPC and Store log of both processes",
@@ -53,7 +57,10 @@ ASSUMES = ["the 'best log wins' theorems take the heads REPORTED in the NewTerm 
 RULE = ("sel: response maps of 0..7 servers with ties, stale-term-longer-log, empty logs; distinct by content, non-trivial = >=2 responses; "
         "elect: scripts (provider, ensemble 3-5, removed 0-2, heads, per-round arrival order with ok/err and timer position, BecomeLeader outcome, "
         "refence outcomes, 1-3 incarnations with kill points s1pre/s1post/nt0-3/blpre/blpost/s2pre/s2post/end), distinct by script; "
-        "fstore: file Store interrupted after k bytes; sfault: coordinator in child processes on the real file provider behind a flaky wrapper "
+        "fstore: file Store interrupted after k bytes; swapf: SwapNode(3->4) on the real shardController with nodes that follow the server's "
+        "NewTerm/BecomeLeader rules, one RPC of the swap's election failing once at each position (NewTerm of a member / the removed / the new "
+        "node, BecomeLeader applied-but-unanswered, DeleteShard of the removed node, GetStatus of the catch-up wait, AddFollower), whatever the "
+        "controller does next, then a second swap as a barrier; sfault: coordinator in child processes on the real file provider behind a flaky wrapper "
         "(Store calls j..j+k-1 fail, k in 1..6, or the first Gets fail) during an election / a node swap / ConfigChanged, optional kill at "
         "BecomeLeader, then a new coordinator process on the same store with the installed leader unreachable; distinct by parameters; cfgrace: real coordinator, ConfigChanged overlapping an election retry up to a pending "
         "BecomeLeader (bl) or a completed election (full), kill, restart; distinct by (mode, initial term); quorum: three real nodes in scripted states before NewTerm (entries synced/acked, an entry appended with the sync round parked "
@@ -99,9 +106,9 @@ def compare(impl, model):
 
 
 LEGS = [
-    {"name": "coord", "harness": "coord", "model": "coord", "n_quick": 300, "n_thorough": 6000,
+    {"name": "coord", "harness": "coord", "model": "coord", "n_quick": 240, "n_thorough": 6000,
      "corpus": "corpus/coord", "timeout": 600, "timeout_thorough": 3000, "compare": compare},
-    {"name": "nodeterm", "harness": "nodeterm", "model": "coord", "n_quick": 150, "n_thorough": 3000,
+    {"name": "nodeterm", "harness": "nodeterm", "model": "coord", "n_quick": 100, "n_thorough": 3000,
      "corpus": "corpus/coord", "timeout": 600, "timeout_thorough": 3000, "compare": compare},
 ]
 
